@@ -17,6 +17,7 @@ thread_local! {
     static ALLOCS: Cell<u64> = const { Cell::new(0) };
     static FAIL_GE: Cell<usize> = const { Cell::new(0) };
     static FAILED: Cell<u64> = const { Cell::new(0) };
+    static FAIL_NTH: Cell<u64> = const { Cell::new(0) };
 }
 
 pub struct VAlloc;
@@ -28,6 +29,24 @@ fn add_live(d: isize) {
 
 #[inline]
 fn should_fail(size: usize) -> bool {
+    let nth = FAIL_NTH.try_with(|c| {
+        let n = c.get();
+        if n == 0 {
+            false
+        }
+        else if n == 1 {
+            c.set(0);
+            let _ = FAILED.try_with(|f| f.set(f.get() + 1));
+            true
+        }
+        else {
+            c.set(n - 1);
+            false
+        }
+    }).unwrap_or(false);
+    if nth {
+        return true;
+    }
     FAIL_GE.try_with(|c| {
         let t = c.get();
         if t != 0 && size >= t {
@@ -96,13 +115,24 @@ pub fn fail_next_ge(n: usize) {
     FAIL_GE.with(|c| c.set(n));
 }
 
-/// Disarms; returns true if the refusal was still armed (nothing failed).
+/// Arms a one-shot refusal of the n-th allocation request from now (n >= 1).
+pub fn fail_nth(n: u64) {
+    FAIL_NTH.with(|c| c.set(n));
+}
+
+/// Disarms; returns true if a refusal was still armed (nothing failed).
 pub fn disarm() -> bool {
-    FAIL_GE.with(|c| {
+    let a = FAIL_GE.with(|c| {
         let armed = c.get() != 0;
         c.set(0);
         armed
-    })
+    });
+    let b = FAIL_NTH.with(|c| {
+        let armed = c.get() != 0;
+        c.set(0);
+        armed
+    });
+    a || b
 }
 
 pub fn failed() -> u64 {
